@@ -296,6 +296,120 @@ fn lie_establish(args: &Value) -> Value {
     }
 }
 
+/// C02: the lying prover against the real `allow_payment`: public builders on (honest witness + delta), image assembled
+/// byte-wise, challenge recomputed from the transcript the real merchant hashes.
+fn lie_pay(args: &Value) -> Value {
+    let mut w = world(args["seed"].as_u64().unwrap_or(12));
+    let ctx = Context::new(b"replay pay");
+    let (cb, mb, amt) = (args["cb"].as_u64().unwrap_or(100), args["mb"].as_u64().unwrap_or(50), args["amount"].as_i64().unwrap_or(7));
+    let (ncb, nmb) = ((cb as i128 - amt as i128) as i64, (mb as i128 + amt as i128) as i64);
+    let kp = w.m.signing_keypair().clone();
+    let pk = kp.public_key().clone();
+    let rev = w.m.revocation_commitment_parameters().clone();
+    let close = zkabacus_crypto::CLOSE_SCALAR;
+    let a = if amt >= 0 { Scalar::from(amt as u64) } else { -Scalar::from(amt.unsigned_abs()) };
+    let d = |n: &str| -> Scalar { args["delta"].get(n).and_then(|v| v.as_str()).map(scalar_from_dec).unwrap_or_else(Scalar::zero) };
+    let mo = [Scalar::random(&mut w.rng), Scalar::random(&mut w.rng), Scalar::random(&mut w.rng), Scalar::from(cb), Scalar::from(mb)];
+    let nonce: Nonce = match bincode::deserialize(&mo[1].to_bytes()) {
+        Ok(n) => n,
+        Err(e) => return json!({"reproduced": false, "detail": format!("nonce does not decode: {}", e)}),
+    };
+    let pay_token = Message::new(mo).sign(&mut w.rng, &kp);
+    let rng_rc = w.rng.clone();
+    let mk_rc = |r: &StdRng, m: &merchant::Config| {
+        let mut r = r.clone();
+        let c = RangeConstraintBuilder::generate_constraint_commitments(ncb, m.range_constraint_parameters(), &mut r).expect("in range");
+        let mm = RangeConstraintBuilder::generate_constraint_commitments(nmb, m.range_constraint_parameters(), &mut r).expect("in range");
+        (c, mm, r)
+    };
+    let (rcc, rcm, r_after) = mk_rc(&rng_rc, &w.m);
+    let (kcb, kmb) = (rcc.commitment_scalar(), rcm.commitment_scalar());
+    w.rng = r_after;
+    let (new_nonce, new_lock) = (Scalar::random(&mut w.rng), Scalar::random(&mut w.rng));
+    let mut ms = [mo[0], new_nonce, new_lock, Scalar::from(ncb as u64), Scalar::from(nmb as u64)];
+    let mut mc = [mo[0], close, new_lock, ms[3], ms[4]];
+    let mut ko = [Scalar::random(&mut w.rng), Scalar::random(&mut w.rng), Scalar::random(&mut w.rng), kcb, kmb];
+    let mut ks = [ko[0], Scalar::random(&mut w.rng), Scalar::random(&mut w.rng), kcb, kmb];
+    let mut kc = [ko[0], Scalar::random(&mut w.rng), ks[2], kcb, kmb];
+    let mut r_msg = mo[2];
+    let mut kr = ko[2];
+    let mut kappa_n = ko[1];
+    let mut kappa_c = kc[1];
+    for i in 0..5 {
+        ms[i] += d(&format!("w.ms{}", i));
+        mc[i] += d(&format!("w.mc{}", i));
+        ko[i] += d(&format!("w.ko{}", i));
+        ks[i] += d(&format!("w.ks{}", i));
+        kc[i] += d(&format!("w.kc{}", i));
+    }
+    r_msg += d("w.r");
+    kr += d("w.kr");
+    kappa_n += d("w.kappa_nonce");
+    kappa_c += d("w.kappa_close");
+    let mut lies: Vec<String> = vec![];
+    for (what, bad) in [
+        ("new state: channel id differs from the old state's", ms[0] != mo[0]),
+        ("close state: channel id differs", mc[0] != mo[0]),
+        ("close state: slot 1 is not the close tag", mc[1] != close),
+        ("new state and close state carry different revocation locks", ms[2] != mc[2]),
+        ("committed old revocation lock is not the old state's", r_msg != mo[2]),
+        ("new customer balance is not old - amount", ms[3] != mo[3] - a),
+        ("new merchant balance is not old + amount", ms[4] != mo[4] + a),
+        ("close state customer balance differs from the new state's", mc[3] != ms[3]),
+        ("close state merchant balance differs from the new state's", mc[4] != ms[4]),
+    ] {
+        if bad {
+            lies.push(what.to_string());
+        }
+    }
+    let rlb = CommitmentProofBuilder::<G1Projective, 1>::generate_proof_commitments(&mut w.rng, Message::new([r_msg]), &[Some(kr)], &rev);
+    let otb = SignatureProofBuilder::<5>::generate_proof_commitments(&mut w.rng, Message::new(mo), pay_token, &ko.map(Some), &pk);
+    let sb = SignatureRequestProofBuilder::<5>::generate_proof_commitments(&mut w.rng, Message::new(ms), &ks.map(Some), &pk);
+    let cbl = SignatureRequestProofBuilder::<5>::generate_proof_commitments(&mut w.rng, Message::new(mc), &kc.map(Some), &pk);
+    let close_bf = cbl.message_blinding_factor();
+    drop((rcc, rcm));
+    let assemble = |c: Challenge, m: &merchant::Config| -> Vec<u8> {
+        let (rcc, rcm, _) = mk_rc(&rng_rc, m);
+        let mut bytes = vec![];
+        bytes.extend_from_slice(&kappa_n.to_bytes());
+        bytes.extend_from_slice(&kappa_c.to_bytes());
+        bytes.extend(bincode::serialize(&otb.clone().generate_proof_response(c)).unwrap());
+        bytes.extend(bincode::serialize(&rlb.clone().generate_proof_response(c)).unwrap());
+        bytes.extend(bincode::serialize(&sb.clone().generate_proof_response(c)).unwrap());
+        bytes.extend(bincode::serialize(&cbl.clone().generate_proof_response(c)).unwrap());
+        bytes.extend(bincode::serialize(&rcc.generate_constraint_response(c)).unwrap());
+        bytes.extend(bincode::serialize(&rcm.generate_constraint_response(c)).unwrap());
+        bytes
+    };
+    let draft: PayProof = match bincode::deserialize(&assemble(ChallengeBuilder::new().with_bytes(b"draft").finish(), &w.m)) {
+        Ok(p) => p,
+        Err(e) => return json!({"reproduced": false, "detail": format!("draft does not decode: {}", e)}),
+    };
+    let _ = sha3::take_log();
+    let _ = w.m.allow_payment(&mut w.rng, amount(amt), &nonce, draft, &ctx);
+    let log = sha3::take_log();
+    let raw = match log.iter().rev().find(|(t, _)| t.len() > 64) {
+        Some((t, _)) => t.clone(),
+        None => return json!({"reproduced": false, "detail": "no challenge transcript recorded"}),
+    };
+    let c = ChallengeBuilder::new().with_bytes(&raw).finish();
+    let bytes = assemble(c, &w.m);
+    let proof: PayProof = bincode::deserialize(&bytes).unwrap();
+    let res = w.m.allow_payment(&mut w.rng, amount(amt), &nonce, proof, &ctx);
+    match res {
+        None => json!({"reproduced": false, "detail": format!("the real merchant REJECTS the lying prover's pay proof (lies: {:?})", lies)}),
+        Some((_unrevoked, closing_sig)) => {
+            let raw = bincode::serialize(&closing_sig).unwrap();
+            let bs: BlindedSignature = bincode::deserialize(&raw).unwrap();
+            let sig = bs.unblind(close_bf);
+            let on_hidden = sig.verify(&pk, &Message::new(mc));
+            json!({"reproduced": !lies.is_empty() && on_hidden,
+                   "detail": format!("real allow_payment ACCEPTED for old balances ({},{}) and amount {} a pay proof built by the public builders with: {:?}; closing signature valid on the hidden close state: {}", cb, mb, amt, lies, on_hidden),
+                   "proof_len": bytes.len()})
+        }
+    }
+}
+
 #[derive(serde::Serialize, serde::Deserialize)]
 struct VecOfScalars(#[serde(with = "zkchannels_crypto::SerializeElement")] Vec<Scalar>);
 
@@ -361,6 +475,7 @@ fn main() {
         "unbound-atom" => unbound_atom(&a),
         "forge-establish" => forge_establish(&a),
         "lie-establish" => lie_establish(&a),
+        "lie-pay" => lie_pay(&a),
         "selftest" => {
             let r = scenarios::run_all(a["seed"].as_u64().unwrap_or(1));
             let v: Vec<_> = r.iter().map(|(n, b)| json!([n, b])).collect();
